@@ -15,9 +15,22 @@ fn w(b: &[u8], i: usize) -> u64 {
 
 fuzz_target!(|data: &[u8]| {
     if data.len() < 32 {
+        pv::fuzz_support::record("too_short", None, String::new);
         return;
     }
     let (a, b, c, d) = (w(data, 0), w(data, 1), w(data, 2), w(data, 3));
+    // non-trivial: four full operands; classes by the representation of the operands
+    let ops = [a, b, c, d];
+    let label = if ops.iter().any(|x| *x >= P) {
+        "noncanonical_operand"
+    } else if ops.iter().any(|x| *x >= P - (1 << 32)) {
+        "operand_near_p"
+    } else if ops.iter().all(|x| *x < 1 << 32) {
+        "all_small"
+    } else {
+        "generic"
+    };
+    pv::fuzz_support::record(label, Some(pv::fuzz_support::fnv(&data[..32])), || format!("{ops:x?}"));
     let (fa, fb, fc) = (F(a), F(b), F(c));
     assert_eq!((fa + fb).to_canonical_u64(), refmod::add(a, b), "add {a:#x} {b:#x}");
     assert_eq!((fa - fb).to_canonical_u64(), refmod::sub(a, b), "sub {a:#x} {b:#x}");
